@@ -75,7 +75,7 @@ pub fn check(c: &Phys, ctx: &mut Ctx) -> Result<(), Failure> {
 }
 pub fn run(tier: Tier, seed: u64) -> i32 {
     let t0 = Instant::now();
-    let sp = Spec { id: "C02", rule: RULE, tape_len: 280, cases: tier.pick(20_000, 300_000), gen: gen_case, check, max_shrink_iters: 3000, shards: 16 };
+    let sp = Spec { id: "C02", rule: RULE, tape_len: 280, cases: tier.pick(100_000, 1_000_000), gen: gen_case, check, max_shrink_iters: 3000, shards: 16 };
     let mut stats = engine::run_spec(&sp, tier, seed);
     engine::run_regressions::<Phys>("C02", check, &mut stats);
     engine::finish("C02", tier, seed, RULE, stats, t0, serde_json::json!({}), &["rescaled parameters read from the crate's debug log (checked by C07)", "brute-force enumeration of spanning trees / 2-forests gives N_T, c_min, C_sum", "normalisation read through serde (checked by C04)"])
